@@ -12,1418 +12,1292 @@ Definition show_fres (r : fres) : string :=
   end.
 Definition check (rs : list rune) : string := digest (show_fres (format_res rs)).
 Definition full (rs : list rune) : string := show_fres (format_res rs).
-Eval vm_compute in ("<<<M1354>>>" ++ check (runes_of_ascii "// top
-options // c0
-{ // c1
-StringPrefixLenType = // c3a
-  // c3b
-u64
+Eval vm_compute in ("<<<M1353>>>" ++ check (runes_of_ascii "options {
+    // c1
+LittleEndian // c2a
+  // c2b
+= true
     // c4
-; // c5
-ArrayPrefixLenType // c6
-= u32 // c8
 ;
-    // c9
-FixedStringPadFromLeft
-    // c10
-= // c11
-false // c12a
-  // c12b
-; } // c14a
-  // c14b
-packet // c15a
-  // c15b
-Party { zchar[ 7 // c19a
-  // c19b
-]
-    // c20
-OrderId
-    // c21
-,
-    // c22
-InTail6 // c23
-{ repeat // c25
-char[ // c26a
-  // c26b
-1 ] msgKind , // c30a
-  // c30b
-char[ 3 // c32a
-  // c32b
-] // c33a
-  // c33b
-Tail // c34
-,
-    // c35
-char[ 3 // c37a
-  // c37b
-] Flags
-    // c39
-, // c40
-i16
-    // c41
-tag7 // c42a
-  // c42b
-, // c43
-} // c44
-, @rightPad // c46a
-  // c46b
-(
-    // c47
-'0' // c48
-) // c49
-char[ // c50a
-  // c50b
-12
-    // c51
-] // c52
-clOrdID // c53
-, // c54a
-  // c54b
-}
-    // c55
-packet // c56a
-  // c56b
-Quote // c57
-{
-    // c58
-@leftPad // c59a
-  // c59b
-( // c60a
-  // c60b
-'0' // c61a
-  // c61b
-) // c62
-char[ 11
-    // c64
-] price // c66
-,
-    // c67
-repeat
-    // c68
-InCount7 { // c70
-i32
-    // c71
-x , // c73a
-  // c73b
-Party , u8
-    // c76
-Ref // c77a
-  // c77b
-, // c78a
-  // c78b
-u8 tag7 , // c81
-} // c82
-, // c83
-char[] // c84a
-  // c84b
-seqNo ,
-    // c86
-Party // c87a
-  // c87b
-, // c88
-}
-    // c89
-packet Logon
-    // c91
-{ @rightPad // c93a
-  // c93b
-( '\x00' ) // c96a
-  // c96b
-char[ // c97a
-  // c97b
-5 // c98
-]
-    // c99
-Note , // c101a
-  // c101b
-i16
-    // c102
-sym
-    // c103
-, // c104a
-  // c104b
-InPrice72 // c105a
-  // c105b
-{ char[ // c107
-9
-    // c108
-] // c109
-Ref ,
-    // c111
-zchar[ // c112
-1
-    // c113
-]
-    // c114
-venue ,
-    // c116
-} // c117a
-  // c117b
-, // c118
-char[]
-    // c119
-clOrdID
-    // c120
-, // c121a
-  // c121b
-} root // c123a
-  // c123b
-packet // c124
-Reject {
-    // c126
-repeat
-    // c127
-Logon
-    // c128
-, // c129a
-  // c129b
-@leftPad // c130a
-  // c130b
-( // c131a
-  // c131b
-' ' ) // c133
-char[ 4
-    // c135
-] seqNo , zchar[ 5 // c140a
-  // c140b
-] // c141
-Acct // c142a
-  // c142b
-,
-    // c143
-u32 x
-    // c145
-,
-    // c146
-u16
-    // c147
-f1 @lengthOf(
-    // c149
-Body // c150a
-  // c150b
-) // c151
-,
-    // c152
-match // c153
-x
-    // c154
-as // c155
-Body // c156a
-  // c156b
-{
-    // c157
-[ // c158
-169 // c159
-,
-    // c160
-74 // c161
-] : // c163a
-  // c163b
-Quote // c164
-, 45 // c166a
-  // c166b
-: // c167a
-  // c167b
-Party
-    // c168
-, // c169
-7
-    // c170
-: Logon , // c173a
-  // c173b
-} ,
-    // c175
-}
-    // c176
-")).
-Eval vm_compute in ("<<<M1582>>>" ++ check (runes_of_ascii "options {
-
-    StringPrefixLenType 
+    // c5
+StringPrefixLenType
+    // c6
+= // c7
+u8 ; // c9
+ArrayPrefixLenType // c10a
+  // c10b
 =
-
-    u16 ; ArrayPrefixLenType= u16
-;  }  packet SampleBinary {
-uint16
-    MsgType
-
-`" ++ [28040; 24687; 31867; 22411]%N ++ runes_of_ascii "`,
-u16 BodyLenght@lengthOf(
-Body)
-    `" ++ [28040; 24687; 20307; 38271; 24230]%N ++ runes_of_ascii "`
-	,match
-	MsgType
-as Body  { 1
-:
-
-    Logon	, 2
-
-:
-	Logout ,3  : Heartbeat ,
-4
-: RiskControlRequest
-,5
-:RiskControlResponse
-,	},
-@calculatedFrom(
-""CRC32"")	u32
-    Ckecksum`" ++ [26657; 39564; 21644]%N ++ runes_of_ascii "`	,	}
-	packet
-	Logon	{
-@leftPad
-
-    (	'0'
-	)
-char[ 10
-
-]
-    UserName
-    `" ++ [29992; 25143; 21517]%N ++ runes_of_ascii "`	,string Password	`" ++ [23494; 30721]%N ++ runes_of_ascii "`
-
-    ,  uint64
-ClientId`" ++ [23458; 25143; 31471]%N ++ runes_of_ascii "ID`, u16
-HeartbeatInterval  `" ++ [24515; 36339; 38388; 38548]%N ++ runes_of_ascii "` ,} 
-packet	Logout {
-
-@rightPad( '0'
-	) char[
-10 ]	UserName`" ++ [29992; 25143; 21517]%N ++ runes_of_ascii "` ,
-uint64	ClientId`" ++ [23458; 25143; 31471]%N ++ runes_of_ascii "ID`
-
-,}
-    packet 
-Heartbeat	{
-}	packet
-	RiskControlRequest	{
-string
-
-    UniqueOrderId`" ++ [21807; 19968; 35746; 21333; 21495]%N ++ runes_of_ascii "` ,
-    char[16
-	]
-	ClOrdID
-
-    `" ++ [23458; 25143; 35746; 21333; 21495]%N ++ runes_of_ascii "` 
-,
-
-    char[
-
-3
-]
-MarketID
-
-`" ++ [24066; 22330]%N ++ runes_of_ascii "id` 
-,
-
-    char[ 12
-    ]
-SecurityID`" ++ [35777; 21048; 20195; 30721]%N ++ runes_of_ascii "`
-, 
-char
-	Side
-
-    `" ++ [20080; 21334; 26041; 21521]%N ++ runes_of_ascii "` , char
-OrderType`" ++ [35746; 21333; 31867; 22411]%N ++ runes_of_ascii "`
-	, u64
-	Price
-	`" ++ [20215; 26684]%N ++ runes_of_ascii "`	,
-
-    u32
-    Qty
-
-`" ++ [25968; 37327]%N ++ runes_of_ascii "`
-
-, repeat	string	ExtraInfo
-
-    `" ++ [38468; 21152; 20449; 24687]%N ++ runes_of_ascii "`
-,	repeat SubOrder
-
-    {
-	char[ 16
-
-]
-	ClOrdID
-`" ++ [23376; 35746; 21333; 21495]%N ++ runes_of_ascii "` ,	u64 Price`" ++ [23376; 35746; 21333; 20215; 26684]%N ++ runes_of_ascii "` ,
-u32 Qty 
-`" ++ [23376; 35746; 21333; 25968; 37327]%N ++ runes_of_ascii "`,} ,
-    }
+    // c11
+u8
+    // c12
+; // c13
+FixedStringPadFromLeft = // c15a
+  // c15b
+true // c16a
+  // c16b
+; FixedStringPadChar // c18
+= // c19
+'0' // c20a
+  // c20b
+;
+    // c21
+} // c22a
+  // c22b
 packet
-
-RiskControlResponse  {
-
-    string UniqueOrderId  `" ++ [21807; 19968; 35746; 21333; 21495]%N ++ runes_of_ascii "`
-, i32 Status
-    `" ++ [29366; 24577]%N ++ runes_of_ascii "` ,
-string
-Msg
-	`" ++ [32467; 26524; 20449; 24687]%N ++ runes_of_ascii "`
-    ,
-	repeat Detail ,
-}
-	packet
-    Detail 
+    // c23
+Logon
+    // c24
+{ // c25a
+  // c25b
+repeat // c26
+i8 Ref // c28
+, // c29
+@rightPad // c30
+( // c31
+'0' // c32a
+  // c32b
+) char[ // c34a
+  // c34b
+8 // c35a
+  // c35b
+] // c36a
+  // c36b
+msgKind , // c38
+repeat // c39
+InOrderid72 // c40
+{ u8
+    // c42
+Side2 // c43
+, // c44
+uint32
+    // c45
+Qty
+    // c46
+, // c47
+repeat // c48
+InPrice27 // c49
+{ // c50a
+  // c50b
+repeat char[ // c52a
+  // c52b
+4
+    // c53
+]
+    // c54
+Acct // c55a
+  // c55b
+, // c56
+u64 sym // c58
+,
+    // c59
+} , zchar[ // c62
+4 // c63a
+  // c63b
+] // c64
+clOrdID // c65
+, int16 // c67
+lastPx
+    // c68
+, // c69
+InAcct22
+    // c70
 {
-
-    string  RuleName `" ++ [35268; 21017; 21517; 31216]%N ++ runes_of_ascii "` 
-, u16
-    Code`" ++ [21407; 22240; 20195; 30721]%N ++ runes_of_ascii "`
+    // c71
+repeat char[ 3 // c74
+] // c75a
+  // c75b
+OrderId // c76a
+  // c76b
+, // c77a
+  // c77b
+}
+    // c78
 ,
-	}
-
-")).
-Eval vm_compute in ("<<<M1956>>>" ++ check (runes_of_ascii "packet T {
-    match repeatCount as Packet {
-        ""packet"" : msg_type,
-        00 : Foo,
-        """ ++ [128512]%N ++ runes_of_ascii """ : trueish,
-        """" : repeatCount,
-        [4294967296, 65535] : u,
-    },
-    @calculatedFrom(""a\\"")
-    float32 len @lengthOf(string_),
-    stringy Pad,
-    roots {
-        repeat x_y_z `// not a comment`,
-        T `" ++ [233]%N ++ runes_of_ascii "`,
-    },
-    @tag(007)
-    _x {
-        // " ++ [128512]%N ++ runes_of_ascii " emoji
-        char[] body @calculatedFrom(""" ++ [233]%N ++ runes_of_ascii "t" ++ [233]%N ++ runes_of_ascii """),
-        repeat Pad ``,
-    },
-    match u as packetx {
-        // `tick` ""quote"" 'q'
-        [""// no comment"", 007] : T,
-        [""\" ++ [233]%N ++ runes_of_ascii """] : u8x,
-    },
-    @rightPad()
-    int8 _x,
-    @lengthOf(A)
-    match crc as metadata {
-        [00, ""a\""b"", 3, 1, 10] : Packet,
-        //	t
-        [4294967296, ""abc"", """"] : a1,
-        """ ++ [28040; 24687]%N ++ runes_of_ascii """ : repeatCount,
-    },
-}
-
-options {
-}
-
-MetaData Header {
-    trueish Pad,
-}
-
-MetaData Z9_ {
-    char[] metadata,
-    // " ++ [128512]%N ++ runes_of_ascii " emoji
-    // packet A { u8 x, }
-    Header A `doc`,//x
-    uint32 packetx,
-    int16 uint8x,
-    Header leftPad,// packet A { u8 x, }
-}
-// trailing space ")).
-Eval vm_compute in ("<<<M196>>>" ++ check (runes_of_ascii "root  packet u { match //x
-T as body// c
+    // c79
+} // c80a
+  // c80b
+, // c81
+int64
+    // c82
+Px // c83
+, } // c85
+packet // c86a
+  // c86b
+Fill // c87
+{ // c88a
+  // c88b
+uint16 Qty // c90
+, // c91
+repeat // c92a
+  // c92b
+char[
+    // c93
+1 // c94a
+  // c94b
+] // c95a
+  // c95b
+Flags
+    // c96
+,
+    // c97
+i8 // c98a
+  // c98b
+Ref
+    // c99
+, // c100
+} // c101
+packet // c102
+Logout
+    // c103
 {
-[
-""a\""b""
-    , 3 ] :
-stringy  ""a	b"" : charz // a // b
+    // c104
+@leftPad // c105
+(
+    // c106
+'0'
+    // c107
+) // c108a
+  // c108b
+char[ // c109a
+  // c109b
+3
+    // c110
+] x , // c113a
+  // c113b
+int8
+    // c114
+f1 // c115a
+  // c115b
+, // c116a
+  // c116b
+Logon
+    // c117
 ,
-    10:  lengthOf// " ++ [128512]%N ++ runes_of_ascii " emoji
-, ""CRC32"" : falsey
-,
-    0123456789 : _x ,
-    } , body @lengthOf( i64_ )
-, u64 chars
-`u8 x,` ,T {i64_ string_,
-    u32 metadata , zchar[ 1
-]Z9_,}
-    // c
-    ,@calculatedFrom( ""a\\"" ) rootA // " ++ [128512]%N ++ runes_of_ascii " emoji
-x_y_z
-`u8 x,` ,
-    zchar[ 007 ]body @calculatedFrom(
-""\n""
-) ,
-    @leftPad (
-'0') @rightPad
-    ( '0' )
-@calculatedFrom( """ ++ [233]%N ++ runes_of_ascii "t" ++ [233]%N ++ runes_of_ascii """
-    )	repeat uint64 A	, repeat  u8x
-    { match
-o
+    // c118
+uint16 venue ,
+    // c121
+zchar[
+    // c122
+2
+    // c123
+] // c124
+Px // c125a
+  // c125b
+, } // c127a
+  // c127b
+packet // c128
+Reject // c129
+{
+    // c130
+} root // c132
+packet // c133
+Leg
+    // c134
+{ // c135a
+  // c135b
+Fill // c136a
+  // c136b
+, // c137
+u16 // c138a
+  // c138b
+msgKind
+    // c139
+, // c140
+match // c141
+msgKind // c142
 as
-x
-    {
-    10	:charz
-// " ++ [27880; 37322]%N ++ runes_of_ascii "
-// " ++ [27880; 37322]%N ++ runes_of_ascii "
-,""a	b"": matchKey
-, ""x y""
+    // c143
+Body
+    // c144
+{
+    // c145
+[ 182
+    // c147
+, 83 // c149
+] // c150a
+  // c150b
 :
-    trueish ,[ """ ++ [233]%N ++ runes_of_ascii "t" ++ [233]%N ++ runes_of_ascii """ ] : zchar,""1"" : charz // " ++ [27880; 37322]%N ++ runes_of_ascii "
+    // c151
+Fill // c152
+, // c153
+199 : Reject ,
+    // c157
+137 // c158a
+  // c158b
+: // c159a
+  // c159b
+Logout , 35 // c162
+: // c163a
+  // c163b
+Logon , // c165
+} // c166
+, // c167a
+  // c167b
+u32
+    // c168
+lastPx @calculatedFrom( // c170
+""CRC32"" // c171
+)
+    // c172
 ,
-[ ""a\""b"" ,
-""abc""
-, ""a\\"", ""abc"" ,
-// packet A { u8 x, }
-// " ++ [128512]%N ++ runes_of_ascii " emoji
-""""
-// packet A { u8 x, }
-/// triple
-] : u8x, } ,	},repeat falsey { rootA
-    tag ,
-    zchar[/// triple
-0 ] falsey ,  }
-    , charz a1 `{ , }`
-, } root
-packet /// triple
-Header{}
+    // c173
+} // c174a
+  // c174b
 ")).
-Eval vm_compute in ("<<<M1339>>>" ++ check (runes_of_ascii "// top
-options // c0
-{ // c1
+Eval vm_compute in ("<<<M1668>>>" ++ check (runes_of_ascii "packet falsey {
+    @leftPad()
+    int8 uint8x,
+    zchar[10] matchKey,
+    // c
+    repeat matchKey {
+        repeat i8 matchKey,
+        a1 @calculatedFrom(""\n"") `two words`,
+    },
+    a1 {
+        char[] a1,
+        char x_y_z,
+        zchar[65535] len `u8 x,`,
+    },
+    repeat MetaDataX {
+        repeat leftPad pack,
+        string i8i8 `say ""hi""`,
+    },
+    // " ++ [27880; 37322]%N ++ runes_of_ascii "
+    // @lengthOf(
+    @leftPad('0')
+    @lengthOf(BodyLength)
+    @rightPad(' ')
+    char[] charz,
+    @lengthOf(i8i8)
+    @calculatedFrom(""CRC32"")
+    @lengthOf(T)
+    metadata,// 50% %s
+}
+
+packet x {
+    @tag(0123456789)
+    match tag as Pad {
+        [
+            ""\" ++ [233]%N ++ runes_of_ascii """, ""a	b"", ""a\\"", ""{,}"", 007,
+            007, 0123456789
+        ] : options1,
+    },
+    @leftPad()
+    @lengthOf(charz)
+    @tag(42)
+    o {
+        i32 msg_type @lengthOf(A) ``,
+        zchar[1] charz,
+        i8 packetx `tab	here`,
+        repeat crc rootA,
+    },//	t
+    repeat uint8x asx,
+    repeat char[] Foo,
+    repeat zchar[0123456789] u128,
+    match uint8x as _x {
+        ""packet"" : f32a,
+        255 : roots,
+        [
+            """ ++ [28040; 24687]%N ++ runes_of_ascii """, 0123456789, ""CRC32"", 0, 1,
+            255
+        ] : Packet,
+        ""`tick`"" : metadata,
+        ""x y"" : rootA,
+    },
+    _x @lengthOf(crc),
+    @lengthOf(Logon)
+    repeat Packet options1,
+    match trueish as lengthOf {
+        65535 : float,
+    },
+    @tag(65535)
+    lengthOf @lengthOf(a1) `tab	here`,
+}")).
+Eval vm_compute in ("<<<M1370>>>" ++ check (runes_of_ascii "// top
+options
+    // c0
+{ // c1a
+  // c1b
 LittleEndian
     // c2
-= // c3
-true
-    // c4
-; // c5a
-  // c5b
-StringPrefixLenType =
-    // c7
-u16
-    // c8
-; FixedStringPadChar = ' ' // c12
-;
-    // c13
-}
-    // c14
-packet
-    // c15
-Logon // c16
-{
-    // c17
-@leftPad ( '0' // c20
-)
-    // c21
-char[
-    // c22
-10 // c23
-] // c24
-tag7 , // c26
-} root packet
-    // c29
-Ack { int32 // c32a
-  // c32b
-Px // c33
-, // c34
-uint16
-    // c35
-count // c36
-, // c37
-string // c38
-Qty // c39
-,
-    // c40
-string OrderId
-    // c42
-, string // c44a
-  // c44b
-Flags ,
-    // c46
-u8 // c47a
-  // c47b
-x // c48a
-  // c48b
-,
-    // c49
-match x // c51
-as // c52a
-  // c52b
-Body // c53
-{ // c54a
-  // c54b
-[ 58 , // c57a
-  // c57b
-169 // c58a
-  // c58b
-]
-    // c59
-: // c60
-Logon // c61a
-  // c61b
-, // c62a
-  // c62b
-} , } // c65
-")).
-Eval vm_compute in ("<<<M93>>>" ++ check (runes_of_ascii "packet float { char[]
-    u8x
-@lengthOf( roots ) ,
-}MetaData leftPad	{ string
-    // `tick` ""quote"" 'q'
-    a1, }root
-packet // " ++ [27880; 37322]%N ++ runes_of_ascii "
-pack { falsey,
-    /// triple
-    match Logon
-as // " ++ [128512]%N ++ runes_of_ascii " emoji
-trueish
-{""packet""
-    : Foo ,"""" : len, 0123456789: i64_ , ""it's"" : packetx
-    ,
-    255
-    : len
-, }
-    , repeat
-As As `" ++ [233]%N ++ runes_of_ascii "` , @tag( 3  ) uint32 a1
-, repeat  zchar[ 4294967296]
-pack	,@leftPad (' ' )  zchar  @lengthOf( string_ ) `// not a comment` , repeat int ,
-repeat
-i8i8 // " ++ [27880; 37322]%N ++ runes_of_ascii "
-{ u64
-    // a // b
-    tag `say ""hi""`	,u8x , char trueish  , repeat // packet A { u8 x, }
-float32
-    stringy `line1
-line2` ,} ,match o
-as	o { 007  : float },
-// packet A { u8 x, }
-// c
-repeat
-    Pad ,
-// " ++ [27880; 37322]%N ++ runes_of_ascii "
-// trailing space 
-}")).
-Eval vm_compute in ("<<<M1122>>>" ++ check (runes_of_ascii "// top
-options // c0
-{ // c1
-uint8x // c2
-= // c3
-007 // c4
-; // c5
-lengthOf // c6
-= // c7
-i8 // c8
-; // c9
-} // c10
-packet // c11
-i64_ // c12
-{ // c13
-@calculatedFrom( // c14
-""1"" // c15
-) // c16
-@tag( // c17
-3 // c18
-) // c19
-@lengthOf( // c20
-rootA // c21
-) // c22
-repeat // c23
-int8 // c24
-Packet // c25
-`u8 x,` // c26
-, // c27
-} // c28
-root // c29
-packet // c30
-stringy // c31
-{ // c32
-@rightPad // c33
-( // c34
-' ' // c35
-) // c36
-repeat // c37
-char[ // c38
-10 // c39
-] // c40
-repeatCount // c41
-, // c42
-@tag( // c43
-255 // c44
-) // c45
-float64 // c46
-msg_type // c47
-@calculatedFrom( // c48
-""packet"" // c49
-) // c50
-, // c51
-} // c52
-")).
-Eval vm_compute in ("<<<M1114>>>" ++ check (runes_of_ascii "// top
-packet
-    // c0
-float
-    // c1
-{
-    // c2
-@rightPad
-    // c3
-(
-    // c4
-)
-    // c5
-rootA
-    // c6
-@lengthOf(
-    // c7
-trueish
-    // c8
-)
-    // c9
-,
-    // c10
-stringy
-    // c11
-@lengthOf(
-    // c12
-matchKey
-    // c13
-)
-    // c14
-,
-    // c15
-char[
-    // c16
-4294967296
-    // c17
-]
-    // c18
-pack
-    // c19
-@lengthOf(
-    // c20
-uint8x
-    // c21
-)
-    // c22
-,
-    // c23
-}
-    // c24
-root
-    // c25
-packet
-    // c26
-trueish
-    // c27
-{
-    // c28
-repeat
-    // c29
-uint64
-    // c30
-u128
-    // c31
-`line1
-line2`
-    // c32
-,
-    // c33
-}
-    // c34
-")).
-Eval vm_compute in ("<<<M1115>>>" ++ check (runes_of_ascii "packet float
-    // c1
-{ // c2
-@rightPad // c3a
+= // c3a
   // c3b
-( // c4a
-  // c4b
-) // c5a
-  // c5b
-rootA // c6
-@lengthOf( // c7a
-  // c7b
-trueish // c8
-)
+true // c4
+; ArrayPrefixLenType = u32 ;
     // c9
-,
-    // c10
-stringy // c11a
-  // c11b
-@lengthOf( // c12a
-  // c12b
-matchKey )
-    // c14
-, // c15a
-  // c15b
-char[ 4294967296 ]
-    // c18
-pack @lengthOf(
-    // c20
-uint8x
-    // c21
-) // c22a
-  // c22b
-,
-    // c23
-} // c24
-root // c25
-packet trueish {
+FixedStringPadChar // c10
+= ' '
+    // c12
+; } packet Order // c16a
+  // c16b
+{
+    // c17
+char[ 5 ] seqNo // c21a
+  // c21b
+, // c22
+uint8 Px // c24a
+  // c24b
+, } // c26
+packet // c27a
+  // c27b
+Logon
     // c28
-repeat uint64
-    // c30
-u128
+{ @rightPad // c30
+(
     // c31
-`line1
-line2` // c32
-,
+'\x00' // c32
+)
     // c33
-}
-    // c34
-")).
-Eval vm_compute in ("<<<M1549>>>" ++ check (runes_of_ascii "
-// packet A { u8 x, }
-		MetaData roots
-
-{ char[
-
-    00
-    ]	lengthOf
-
-``
-	,
-As
-stringy
-    ,
-
-    x 
-calculatedFrom
-
-    ,
-}packet
-
-i8i8 
-{ crc `crlf
-line` , @rightPad // a // b
-	(
-
-    )
+char[ // c34
+8 ] Flags // c37
+,
+    // c38
 zchar[
-
-    42
-]falsey  // trailing space 
-    , 
-    /// triple
-    @tag(
-42
-)u32
-
-    leftPad , 
-@tag(42)
-a1
-@lengthOf(
-	Z9_ )
-, match
-leftPad  as
-
-    crc  {
-[
-    ""a\""b""  , 1
-, 255
+    // c39
+3
+    // c40
 ]
-	:trueish
-
-,3  :
-
-    float ,
-
-    0: lengthOf ,
-	}	,
-} ")).
-Eval vm_compute in ("<<<M1482>>>" ++ check (runes_of_ascii "
-packet Frame {
-u8
-
-HK,
-u8
-	BK
+    // c41
+count
+    // c42
+, repeat // c44a
+  // c44b
+Order // c45
+, // c46a
+  // c46b
+} // c47
+root
+    // c48
+packet // c49a
+  // c49b
+Party // c50
+{ // c51a
+  // c51b
+repeat // c52
+Logon // c53
 ,
-
-u8
-TK
-,match
-	HK as
-	Hdr
-{
-1  :HdrA
-
-    , 
-2:
-HdrB
-,} 
-,
-match
-    BK as Body
-{  1 : BodyA ,
-
-2 : 
-BodyB , },
-    match
-
-TK
-    as	Trl {
-	1
-
-:TrlA  ,
-}	,  }
-
-    packet
-
-    HdrA {
-
-u8  a,
-    }packet
-
-HdrB {u16
-b , 
-} packet
-BodyA
-
-    {
-
-    u32
-c , }packet BodyB{u64
-d  ,
-	}
-
-    packet
-TrlA	{
-u8 e
-
-,
-    }root
-    packet
-Msg{
-
-Frame
-	,
-    u8 x
-,
-
-    }
-")).
-Eval vm_compute in ("<<<M1562>>>" ++ check (runes_of_ascii "MetaData Pad {
-    i16 repeatCount,// c
-    f32 pack `a\`,
-}
-
-packet f32a {
-    @lengthOf(metadata)
-    match msg_type as matchKey {
-        00 : rootA,
-    },
-    @rightPad()
-    match repeatCount as len {
-        [""x y"", 10] : As,
-        42 : i64_,
-        """ ++ [128512]%N ++ runes_of_ascii """ : BodyLength,
-        7 : f32a,
-    },
-    @lengthOf(BodyLength)
-    repeat Foo `line1
-    line2`,
-}// @lengthOf(")).
-Eval vm_compute in ("<<<M245>>>" ++ check (runes_of_ascii "MetaData float{ int16
-// c
-// " ++ [128512]%N ++ runes_of_ascii " emoji
-chars , int8 _x
-, char	charz ,
-Header  u8x
-    , u16 _x
-,
-    // @lengthOf(
-    x_y_z repeatCount ,}	packet Foo
-{ @tag(//	t
-1  )
-string Logon	`
-`
-, }//x
-options{ zchar =  ' ' trueish = //x
-""""
-    leftPad =255 ;
-}	root packet options1 {u64 packetx// `tick` ""quote"" 'q'
-@calculatedFrom(""// no comment""  ) ``,}
-")).
-Eval vm_compute in ("<<<M1652>>>" ++ check (runes_of_ascii "packet
-
-Logon	{
-	o
-
-Header	, Header  ,
+    // c54
+repeat // c55
+char[ 1 // c57
+]
+    // c58
+x , u32 // c61a
+  // c61b
+price
+    // c62
+, // c63
+u32
+    // c64
+Side2
+    // c65
 @lengthOf(
-
-u
-    )
-char[	255	]
-
-tag  `tab	here`
-,  char[] falsey	, @lengthOf(
-
-    zchar
-
-)
-    @rightPad  (  )float
-	roots  // @lengthOf(
-    , @calculatedFrom(""// no comment""
-	)i64
-
-    u8x,}
-	options {
-metadata
-=	'0' ;_x
-    = 
-4294967296 ;
-Packet=
-'0'
-
-    ; 
-}
+    // c66
+Body
+    // c67
+) ,
+    // c69
+match price // c71a
+  // c71b
+as Body // c73a
+  // c73b
+{ // c74
+49 // c75
+: Order , // c78
+196 : // c80a
+  // c80b
+Logon // c81a
+  // c81b
+, } // c83a
+  // c83b
+, u32 // c85
+f1 // c86a
+  // c86b
+@calculatedFrom( ""CRC32""
+    // c88
+) // c89a
+  // c89b
+, // c90a
+  // c90b
+} // c91a
+  // c91b
 ")).
-Eval vm_compute in ("<<<M1519>>>" ++ check (runes_of_ascii "
-options
-
-    {  LittleEndian
-=
-    true; }packet
-    Logon{
-    u8	x
-
-    ,  string
-user , }
-    packet 
-Logout 
-{ u16
-	reason ,} packet
-    Empty {	} 
-root packet	Frame
-{
-u16	MsgType, u8 BodyLen
-	@lengthOf(  Body
-    ) ,	u8 flags
-    ,  Logon Body
-,  u32 trailer
-,  } ")).
-Eval vm_compute in ("<<<M1387>>>" ++ check (runes_of_ascii "packet Sub
-	{
-	u8
-	a ,  @calculatedFrom(
-""CRC16""
-
-)
-    i32  SubSum
-,
-
-    }root  packet
-    Frame
-
-{u16
-	MsgType
-	,
-u16
-	BodyLen
-
-@lengthOf(	Body)
-,
-
-    Sub	Body ,
-string
-	note ,
-@calculatedFrom(""CRC16"")
-    i32 
-Checksum  , u8 tail , 
-} ")).
-Eval vm_compute in ("<<<M1505>>>" ++ check (runes_of_ascii "// top
-MetaData leftPad {
-    // c2
-    chars MetaDataX,
-    // c5
+Eval vm_compute in ("<<<M1885>>>" ++ check (runes_of_ascii "MetaData Z9_ {
+    string roots,
+    repeatCount packetx `say ""hi""`,
 }
 
-// c6
-packet repeatCount {
-    // c9
-    char[255] uint8x `" ++ [233]%N ++ runes_of_ascii "`,
-    // c15
-}
-
-// c16
-MetaData pack {
-    // c19
-    As Foo,
-    // c22
-}
-// c23")).
-Eval vm_compute in ("<<<M265>>>" ++ check (runes_of_ascii "MetaData
-    zchar
-{
-uint8 _x
-// `tick` ""quote"" 'q'
 //
-`doc` ,
-    float64 metadata`doc` // " ++ [128512]%N ++ runes_of_ascii " emoji
-, zchar[ 42
-    ]
 // packet A { u8 x, }
-// c
-x_y_z , zchar[ 3 ]Logon `{ , }`
-, }
-
-")).
-Eval vm_compute in ("<<<M1702>>>" ++ check (runes_of_ascii "
-MetaData
-    leftPad
-
-{
-	chars
-
-    MetaDataX
-    ,
-}packet repeatCount
-    {
-    char[	// c
-    	255
-
-    ]uint8x`" ++ [233]%N ++ runes_of_ascii "` 
-, } 
-MetaData
-    pack	{As
-    Foo
-,
-	}
-
-")).
-Eval vm_compute in ("<<<M187>>>" ++ check (runes_of_ascii "
-options// " ++ [27880; 37322]%N ++ runes_of_ascii "
-{
-f32a= ""a\""b""//x
-; Z9_ = // " ++ [27880; 37322]%N ++ runes_of_ascii "
-""`tick`""	Logon
-    // " ++ [27880; 37322]%N ++ runes_of_ascii "
-    =""CRC32""u128= f64 ;rootA	=
-false ;} //	t
-packet lengthOf {
-} MetaData len { }
-")).
-Eval vm_compute in ("<<<M523>>>" ++ check (runes_of_ascii "packet uint8x
-{ match pack
-    as msg_type	{
-    0123456789 :	float
-}
-,
-} packet //	t
-a1
-    { } options {packetx
-    = '\x00'	; u128= MetaData  ; }
-")).
-Eval vm_compute in ("<<<M536>>>" ++ check (runes_of_ascii "packet uint8x
-{ match pack
-    as msg_type	{
-    0123456789 :	float
-}
-,
-} packet //	t
-a1
-    { } options {packetx
-    = '\x00'	/; u128= ""a	b""  ; }
-")).
-Eval vm_compute in ("<<<M477>>>" ++ check (runes_of_ascii "packet uint8x
-{ match pack
-    as msg_type	{
-    0123456789 :	float
-}
-,
-} packet //	t
-a1
-    { options } {packetx
-    = '\x00'	; u128= ""a	b""  ; }
-")).
-Eval vm_compute in ("<<<M1601>>>" ++ check (runes_of_ascii "
-MetaData leftPad 
-{
-chars MetaDataX 
-, }  packet 
-    // c
-  repeatCount
-
-{  char[
-    255
-    ]
-    uint8x	`" ++ [233]%N ++ runes_of_ascii "` 
-, } 
-MetaData
-
-pack{
-	As
-Foo 
-,
+packet float {
+    repeat char[] metadata,
+    zchar[00] leftPad @calculatedFrom(""" ++ [233]%N ++ runes_of_ascii "t" ++ [233]%N ++ runes_of_ascii """) `" ++ [233]%N ++ runes_of_ascii "`,
+    string T @lengthOf(Pad) `doc`,
+    match f32a as crc {
+        ""x y"" : Foo,
+        // @lengthOf(
+        0 : _x,
+        [""1""] : As,
+        [
+            255, 1, """", ""1"", ""abc"",
+            """ ++ [233]%N ++ runes_of_ascii "t" ++ [233]%N ++ runes_of_ascii """, 10
+        ] : leftPad,
+        // @lengthOf(
+        ""{,}"" : a1,
+        4294967296 : body,
+        //
+    },
+    lengthOf @calculatedFrom(""\" ++ [233]%N ++ runes_of_ascii """),// packet A { u8 x, }
+    @calculatedFrom(""`tick`"")
+    @lengthOf(u)
+    @leftPad('0')
+    match o as BodyLength {
+        [
+            3, 1, ""a\\"", ""`tick`"", 1,
+            1
+        ] : asx,
+        [""a	b"", 255, 3, ""abc"", 65535] : asx,
+        10 : Z9_,
+        [10, ""CRC32"", 7] : roots,
+    },
+    // 50% %s
+    u16 a1,
+    @tag(00)
+    uint32 MetaDataX `u8 x,`,
+    @leftPad('\x00')
+    @rightPad()
+    i64 calculatedFrom,
 }")).
-Eval vm_compute in ("<<<M661>>>" ++ check (runes_of_ascii "// @lengthOf(
-packet i8i8 { u128 o o , }
-options { MetaDataX = true;
-    BodyLength =""packet"" x_y_z= 007
-crc //x
-= ""abc"" ;
-    msg_type =
-i16 }")).
-Eval vm_compute in ("<<<M662>>>" ++ check (runes_of_ascii "// @lengthOf(
-packet i8i8 { u128 o , }
-{ options MetaDataX = true;
-    BodyLength =""packet"" x_y_z= 007
-crc //x
-= ""abc"" ;
-    msg_type =
-i16 }")).
-Eval vm_compute in ("<<<M1777>>>" ++ check (runes_of_ascii "  packet	u  {repeat 
-    // " ++ [128512]%N ++ runes_of_ascii " emoji
+Eval vm_compute in ("<<<M1648>>>" ++ check (runes_of_ascii "  // top
+	options// c0a
+// c0b
+	{
+LittleEndian
+    =  // c3
+	true 
 
-A	,
-    @lengthOf(lengthOf  )
+// c4
+;
 
-repeat
-	i64
+    }	// c6
+packet 
+    // c7
+Sub 
+{  // c9a
+    // c9b
+  	u8 
+a // c11
+    	, 
+	    // c12
+	@calculatedFrom(""CRC16""
 
-i64_
-,  //
-    zchar[	3 	 // a // b
-      ]
-    body
-, }
+    )	// c15a
+	  // c15b
+u64 	 // c16a
+  	// c16b
+    SubSum	// c17
 
-")).
-Eval vm_compute in ("<<<M1864>>>" ++ check (runes_of_ascii "
-packet  B
+	,  // c18a
+	// c18b
+	} 
+	    // c19
+  root
+    // c20
+packet	// c21a
+	// c21b
+	Frame // c22
+      {  
+      // c23
+	u16  // c24a
+  // c24b
+    	MsgType , 	 // c26
+  u16
 
-{
-u8 a
+    BodyLen // c28a
+	// c28b
+      @lengthOf(
 
+    Body	// c30
+  ) // c31
+
+,  // c32a
+	// c32b
+
+Sub  // c33a
+// c33b
+Body
+
+    , 	 // c35
+	string 
+// c36
+
+  note
+    // c37
 , 
-}
-root packet	P
-{
-u8
-K
-    ,u64  L
-@lengthOf( Body )
-,
-    match	K as Body
+    // c38
+	@calculatedFrom( 	 // c39
+	""CRC16""
+// c40
+	)// c41a
+// c41b
+u64
 
-    {
-1 :  B ,
+    Checksum 
+// c43
+  ,
+    // c44
+u8 // c45a
+  	// c45b
+	  tail 	 // c46
 
-}
-    , 
-}
+,  // c47
+  }	// c48a
+    // c48b
 ")).
-Eval vm_compute in ("<<<M1419>>>" ++ check (runes_of_ascii "packet Logon {
-    repeatCount @lengthOf(roots),
-    @tag(0)
-    repeat zchar[007] crc,
-    rootA a1 `{ , }`,
-    string_ `" ++ [233]%N ++ runes_of_ascii "`,
-}")).
-Eval vm_compute in ("<<<M680>>>" ++ check (runes_of_ascii "// @lengthOf(
-packet i8i8 { u128 o , }
-options { MetaDataX = true;
-    BodyLength =""packet"" x_y_z= 007
-crc //x
-= ""abc""")).
-Eval vm_compute in ("<<<M1164>>>" ++ check (runes_of_ascii "MetaData leftPad { chars MetaDataX , } packet repeatCount { char[
+Eval vm_compute in ("<<<M295>>>" ++ check (runes_of_ascii "root
+    packet
+charz { float32 matchKey @lengthOf(falsey ) ``,	@lengthOf( stringy )trueish
+    {uint16 f32a@lengthOf(Foo // 50% %s
+)
+// " ++ [27880; 37322]%N ++ runes_of_ascii "
+//	t
+, }  ,// a // b
+@leftPad( ) repeat char[ 1 ] asx
+, @calculatedFrom(	""" ++ [233]%N ++ runes_of_ascii "t" ++ [233]%N ++ runes_of_ascii """)/// triple
+uint8 Foo , char metadata`crlf
+line`,// " ++ [27880; 37322]%N ++ runes_of_ascii "
+repeat x_y_z
+`tab	here` , @tag(65535 )  o{ uint16 rootA
+`100% of %d` ,match
+charz as
+    tag { 10 : float , 1 // trailing space 
+:
+Foo, } ,repeat char[ 0 ] _x, repeat Packet,
+} , @calculatedFrom(
+""" ++ [128512]%N ++ runes_of_ascii """ )@rightPad
+(
+    )matchKey { char[] roots `crlf
+line` ,uint8 trueish @calculatedFrom( ""CRC32"") `doc`	,// " ++ [27880; 37322]%N ++ runes_of_ascii "
+int64 crc @calculatedFrom( """ ++ [128512]%N ++ runes_of_ascii """ ) , } , @tag( 7 // @lengthOf(
+) zchar[ 42
+] uint8x @lengthOf( tag ) ,
+    } // " ++ [27880; 37322]%N)).
+Eval vm_compute in ("<<<M201>>>" ++ check (runes_of_ascii "//x
+packet body {leftPad
+@calculatedFrom( // " ++ [128512]%N ++ runes_of_ascii " emoji
+""it's""
+)//x
+`line1
+line2` , char[ 3 ]	matchKey , char[] MetaDataX `a\`,
+    repeat
+string_ { tag
 // c
-255 ] uint8x `" ++ [233]%N ++ runes_of_ascii "` , } MetaData pack { As Foo , }")).
-Eval vm_compute in ("<<<M1862>>>" ++ check (runes_of_ascii "
-packet  A 
-{
-match
-
-k as 
-n
-
-{	[ 
-1
-
-,  ""bb""  ,007
-	,
-""d""
-
-    , 
-5,
-
-    ""f""
-
-] :
-
-    B,
-2
-
-: C }
+// packet A { u8 x, }
+`crlf
+line` , repeat x	metadata
+, u @calculatedFrom( """ ++ [128512]%N ++ runes_of_ascii """ )
+    , } ,@tag( 10 )
+// c
+// packet A { u8 x, }
+@lengthOf( T
+)@tag( 7// `tick` ""quote"" 'q'
+)repeatCount
+    lengthOf `tab	here`
+    , @rightPad( '\x00') zchar[ 7
+] rootA
 ,
-    } ")).
-Eval vm_compute in ("<<<M1719>>>" ++ check (runes_of_ascii "options {
-    metadata = '\x00';
-    u128 = ""CRC32"";
-    charz = ' '
-    options1 = 00;
+@lengthOf( len // 50% %s
+) match
+    body as matchKey { 0123456789: stringy
+//
+// packet A { u8 x, }
+, ""x y""
+:	As
+, """ ++ [233]%N ++ runes_of_ascii "t" ++ [233]%N ++ runes_of_ascii """ : charz, 4294967296 : leftPad
+    ,	""" ++ [233]%N ++ runes_of_ascii "t" ++ [233]%N ++ runes_of_ascii """
+    : leftPad
+    ,
+//
+// @lengthOf(
+},} //	t")).
+Eval vm_compute in ("<<<M1805>>>" ++ check (runes_of_ascii "packet _x {
+    zchar[65535] metadata `crlf
+    line`,
+    @calculatedFrom(""CRC32"")
+    Header `doc`,
+    match f32a as msg_type {
+        [""\n""] : charz,
+        0123456789 : pack,
+        [
+            ""packet"", """", ""`tick`"", ""CRC32"", ""\n"",
+            ""it's"", ""it's"", 4294967296
+        ] : charz,
+        /// triple
+        42 : leftPad,
+        [
+            255, 7, ""packet"", ""{,}"", ""\" ++ [233]%N ++ runes_of_ascii """,
+            ""1"", ""1""
+        ] : msg_type,
+        [""" ++ [128512]%N ++ runes_of_ascii """] : i64_,
+    },
+    repeat u8x body,
 }
 
-packet string_ {
+MetaData roots {
+    u8x packetx `two words`,// trailing space 
 }")).
-Eval vm_compute in ("<<<M352>>>" ++ check (runes_of_ascii "packet _x {
-} // trailing space 
-options
-    { repeatCount
-    =42 //x
-;Pad = true;
-x_y_z =
-65535 ;}
-")).
-Eval vm_compute in ("<<<M373>>>" ++ check (runes_of_ascii "  MetaData leftPad { /// triple
-char[] body,  As options1
+Eval vm_compute in ("<<<M327>>>" ++ check (runes_of_ascii "packet crc
+    { @calculatedFrom( ""x y""
+)
+char[] u8x ,
+    } root packet asx //
+{	float32
+    u8x
+`doc`
+// 50% %s
+// trailing space 
+,
+    }
+packet lengthOf
+{ repeat BodyLength{ match uint8x as matchKey {
+""\n"" : body , 00 :
+f32a ,""" ++ [233]%N ++ runes_of_ascii "t" ++ [233]%N ++ runes_of_ascii """ : rootA  , ""it's""
+:
+crc ,} , } ,	@tag( 42
+)
 //
+// " ++ [27880; 37322]%N ++ runes_of_ascii "
+roots Z9_ ,
+repeat leftPad
+{  u128 {len	lengthOf /// triple
+, options1 A // " ++ [27880; 37322]%N ++ runes_of_ascii "
+,
+// `tick` ""quote"" 'q'
 /// triple
-,
-o
-    //x
-    i64_
-, }
+u128
+    Header , }
+    , } , @leftPad (
+' ') /// triple
+repeat int32 u8x ,
+    } // @lengthOf(")).
+Eval vm_compute in ("<<<M1595>>>" ++ check (runes_of_ascii "
+// top
+    MetaData// c0
+	msg_type	// c1
+  	{// c2
+int32 // c3
+    	As// c4
+  `crlf
+line`// c5
+  	, 	 // c6
+	MetaDataX  // c7
+
+x // c8
+	`a\`  // c9
+
+,	// c10
+int8  // c11
+    	_x 	 // c12
+  ,  // c13
+	char[]  // c14
+As // c15
+    `u8 x,`	// c16
+		, // c17
+
+zchar[// c18
+    3// c19
+    ]  // c20
+    uint8x// c21
+	,  // c22
+    As	// c23
+  Foo// c24
+    ,  // c25
+	} // c26
+
+  root  // c27
+
+packet 	 // c28
+    repeatCount 	 // c29
+    	{	// c30
+}	// c31
 ")).
-Eval vm_compute in ("<<<M1254>>>" ++ check (runes_of_ascii "
+Eval vm_compute in ("<<<M312>>>" ++ check (runes_of_ascii "packet  _x	{@calculatedFrom(
+""it's""
+/// triple
+// " ++ [27880; 37322]%N ++ runes_of_ascii "
+) A rootA , int8 Logon
+`100% of %d`	, @lengthOf( As ) a1
+lengthOf ,
+float32 zchar
+@calculatedFrom(""// no comment""
+)
+    ,} MetaData Packet
+{
+    packetx len
+// packet A { u8 x, }
+// 50% %s
+, u16	_x `100% of %d` , uint8 roots
+`{ , }`
+    ,
+falsey leftPad `say ""hi""`
+    ,
+} options// " ++ [128512]%N ++ runes_of_ascii " emoji
+{ A =	10  ;
+Pad
+=  char ; i8i8// 50% %s
+=
+string	x_y_z =
+    false// 50% %s
+}
+")).
+Eval vm_compute in ("<<<M1342>>>" ++ check (runes_of_ascii "
+
+  packet
+Frame
+{
+
+    u8 HK, u8
+	BK , u8
+
+TK, match HK as Hdr { 1 :  HdrA
+,2
+    : 
+HdrB 
+,}
+	,  match	BK as	Body { 1 :
+BodyA,2
+	:
+
+    BodyB
+, } ,
+    match
+TK  as  Trl
+{1: TrlA
+	,
+}
+
+, }
 packet
-    Inner {
-    u8 a
+    HdrA
+
+{u8
+a
 
 ,
-} root
-	packet P
+    }
 
-    {  repeat
-    Inner items,	u8 
-x	, } ")).
-Eval vm_compute in ("<<<M1731>>>" ++ check (runes_of_ascii "packet body {
-    match Logon as _x {
-        4294967296 : _x,
-        """ ++ [28040; 24687]%N ++ runes_of_ascii """ : u128,
-    },
-}")).
-Eval vm_compute in ("<<<M640>>>" ++ check (runes_of_ascii "
 packet
-    asx {match u128 as lengthOf
+
+    HdrB {	u16 b
+,
+    }	packet
+BodyA {	u32
+    c , 
+} 
+packet	BodyB{
+
+u64 d
+    , }
+packet TrlA
+{u8	e , 
+} root packet Msg
+
+    { Frame
+, 
+u8
+
+    x  ,	} ")).
+Eval vm_compute in ("<<<M215>>>" ++ check (runes_of_ascii "packet
+crc {	} root packet a1 { tag u ,  As @lengthOf( msg_type ) , repeat
+//x
+// 50% %s
+i8i8	`// not a comment`,
+    lengthOf
 {
-//	t
-// `tick` ""quote"" 'q'
-$255 : x ,
-    } ,	}")).
-Eval vm_compute in ("<<<M597>>>" ++ check (runes_of_ascii "
-packet
-    asx {match u128 as lengthOf
-{
-//	t
-// `tick` ""quote"" 'q'
-255  x ,
-    } ,	}")).
-Eval vm_compute in ("<<<M860>>>" ++ check (runes_of_ascii "packet A {
-  match k as n {
-    [1, 22, ""c c"", 4, 5, ""f"", 7, 8] : B,
-    2 : C
-  },
+    match asx
+    as o { ""\n"" : MetaDataX , ""CRC32"" :
+asx
+, 0123456789 : falsey,
+10 :
+u128 , 4294967296 :len
+, } /// triple
+,u32 Logon @lengthOf(u8x
+)
+    , repeat float32 u8x
+,}, T Logon`// not a comment`
+    , // `tick` ""quote"" 'q'
 }")).
-Eval vm_compute in ("<<<M582>>>" ++ check (runes_of_ascii "
-packet
-    asx {match u128 as 
+Eval vm_compute in ("<<<M105>>>" ++ check (runes_of_ascii "options// @lengthOf(
+{ roots
+    =  0123456789 ;//x
+}options
+    { }
+packet crc {
+crc @lengthOf( Pad )  `{ , }`, @lengthOf(
+    Logon ) char[]
+BodyLength
+    ,	@leftPad // @lengthOf(
+(
+    '0'
+    ) @leftPad // `tick` ""quote"" 'q'
+(  ) @rightPad (	'\x00'
+)
+char f32a
+    // c
+    @lengthOf( body ),
+    @tag(
+255 )
+string body`` , }")).
+Eval vm_compute in ("<<<M1393>>>" ++ check (runes_of_ascii "options { LittleEndian
+
+    =
+
+true
+
+;
+}  packet
+
+    Sub
+
+{ u8 
+a
+
+    ,
+@calculatedFrom( ""CRC16""
+)  u64
+    SubSum 
+,
+} root	packet
+	Frame
 {
-//	t
-// `tick` ""quote"" 'q'
-255 : x ,
-    } ,	}")).
-Eval vm_compute in ("<<<M1913>>>" ++ check (runes_of_ascii "packet A {
-    match k as n {
-        [1, 22, 007] : B,
-        2 : C,
-    },
-}")).
-Eval vm_compute in ("<<<M1432>>>" ++ check (runes_of_ascii "packet Inner {
+
+u16	MsgType ,
+u16
+    BodyLen @lengthOf( Body
+	)
+,
+    Sub	Body  ,string note, 
+@calculatedFrom( ""CRC16""  )	u64
+	Checksum ,
+	u8 
+tail, 
+}
+")).
+Eval vm_compute in ("<<<M1438>>>" ++ check (runes_of_ascii "packet MDSnapshotZZ {
     u8 a,
 }
 
-root packet P {
-    Inner ref_obj,
-    u8 x,
+packet OrderACK {
+    u16 b,
+}
+
+packet HTTPServerInfo {
+    string s,
+}
+
+root packet FIXMsg {
+    u8 KType,
+    MDSnapshotZZ,
+    repeat OrderACK,
+    match KType as Body {
+        1 : HTTPServerInfo,
+        2 : OrderACK,
+    },
 }")).
-Eval vm_compute in ("<<<M794>>>" ++ check (runes_of_ascii "packet A {
+Eval vm_compute in ("<<<M1333>>>" ++ check (runes_of_ascii "packet
+P1 
+{
+    u8
+a
+    , } packet P2
+	{P1, }
+packet
+
+P3 { P2
+	, P1 , } packet
+P4 {	repeat
+P3	,  P2 ,
+
+    } root packet
+P5{  P4
+,
+    P3
+, P1
+
+    ,
+
+u8 K	,	match	K as
+
+Body { 4 :
+    P4
+	,
+
+3
+
+: P3 ,
+    2 : 
+P2
+	,  1
+:
+
+    P1 
+,
+},}
+")).
+Eval vm_compute in ("<<<M472>>>" ++ check (runes_of_ascii "packet
+    asx { @calculatedFrom(
+""""  ) @tag( 255 )repeat
+// packet A { u8 x, }
+// trailing space 
+int16 u8x
+,
+@tag(
+    //
+    007 )
+    @tag( 0 0
+    /// triple
+    ) @tag( 1) u
+    @lengthOf( T ),
+// `tick` ""quote"" 'q'
+//x
+} // " ++ [128512]%N ++ runes_of_ascii " emoji")).
+Eval vm_compute in ("<<<M428>>>" ++ check (runes_of_ascii "packet
+    asx { @calculatedFrom(
+""""  ) @tag( 255 repeat)
+// packet A { u8 x, }
+// trailing space 
+int16 u8x
+,
+@tag(
+    //
+    007 )
+    @tag( 0
+    /// triple
+    ) @tag( 1) u
+    @lengthOf( T ),
+// `tick` ""quote"" 'q'
+//x
+} // " ++ [128512]%N ++ runes_of_ascii " emoji")).
+Eval vm_compute in ("<<<M409>>>" ++ check (runes_of_ascii "packet
+    asx { @calculatedFrom(
+:  ) @tag( 255 )repeat
+// packet A { u8 x, }
+// trailing space 
+int16 u8x
+,
+@tag(
+    //
+    007 )
+    @tag( 0
+    /// triple
+    ) @tag( 1) u
+    @lengthOf( T ),
+// `tick` ""quote"" 'q'
+//x
+} // " ++ [128512]%N ++ runes_of_ascii " emoji")).
+Eval vm_compute in ("<<<M263>>>" ++ check (runes_of_ascii "MetaData i64_{int16 u128 ,}
+    MetaData	packetx
+{ char[]
+T, uint16 a1 `a\`
+, zchar[ 007 ] uint8x	, }
+root
+packet//	t
+A {
+@leftPad ( ' ' ) @tag( 255 // " ++ [27880; 37322]%N ++ runes_of_ascii "
+) @leftPad ( '\x00' ) repeat leftPad i64_
+    // `tick` ""quote"" 'q'
+    ,}")).
+Eval vm_compute in ("<<<M330>>>" ++ check (runes_of_ascii "packet uint8x { u64	f32a @calculatedFrom( ""`tick`"") ,
+match tag as
+    leftPad { """ ++ [233]%N ++ runes_of_ascii "t" ++ [233]%N ++ runes_of_ascii """: charz // 50% %s
+, } , @leftPad
+( ' ' )
+    int32
+x_y_z // a // b
+,}	options { matchKey =uint16; } // `tick` ""quote"" 'q'")).
+Eval vm_compute in ("<<<M1543>>>" ++ check (runes_of_ascii "// top
+packet B {
+    u8 a,
+    // c5
+}// c6a
+
+// c6b
+root packet P {
+    u8 K,// c13
+    u8 L @lengthOf(Body),
+    match K as Body {
+        1 : B,
+        // c28a
+        // c28b
+    },
+}")).
+Eval vm_compute in ("<<<M1554>>>" ++ check (runes_of_ascii "packet A {
+    match k as n {
+        ""\
+        "" : B,
+        [""\
+        "", 1] : C,
+        [
+            1, 2, 3, 4, 5,
+            ""\
+            ""
+        ] : D,
+    },
+}")).
+Eval vm_compute in ("<<<M1472>>>" ++ check (runes_of_ascii "MetaData u {
+}
+
+MetaData o {
+    float uint8x `100% of %d`,
+    repeatCount u8x,
+    string_ leftPad,
+    i32 Foo,
+    int64 x `two words`,
+    calculatedFrom stringy,
+}")).
+Eval vm_compute in ("<<<M694>>>" ++ check (runes_of_ascii "MetaData u
+    { } MetaData o
+{ float uint8x
+`100% of %d` ' ,repeatCount u8x, string_ leftPad
+, i32
+    Foo , int64 x `two words` , calculatedFrom
+stringy `a\` ,
+}
+")).
+Eval vm_compute in ("<<<M603>>>" ++ check (runes_of_ascii "MetaData u
+    { } MetaData o
+{ float uint8x
+`100% of %d` ,u8x repeatCount, string_ leftPad
+, i32
+    Foo , int64 x `two words` , calculatedFrom
+stringy `a\` ,
+}
+")).
+Eval vm_compute in ("<<<M651>>>" ++ check (runes_of_ascii "MetaData u
+    { } MetaData o
+{ float uint8x
+`100% of %d` ,repeatCount u8x, string_ leftPad
+, i32
+    Foo , int64  `two words` , calculatedFrom
+stringy `a\` ,
+}
+")).
+Eval vm_compute in ("<<<M594>>>" ++ check (runes_of_ascii "MetaData u
+    { } MetaData o
+{ float uint8x
+zchar[ ,repeatCount u8x, string_ leftPad
+, i32
+    Foo , int64 x `two words` , calculatedFrom
+stringy `a\` ,
+}
+")).
+Eval vm_compute in ("<<<M1460>>>" ++ check (runes_of_ascii "
+
+  packet	A	{
+	match k
+
+as
+    n {
+
+[ ""a""  ,""bb""
+, 007, 
+""d"" 
+,  ""e""
+
+    ,  66  ,
+
+""g"" , 
+""h"" ,
+	9 
+,
+""j""	,
+""k""
+
+,12]
+    :
+	B, 2
+    : C	} ,
+}
+
+")).
+Eval vm_compute in ("<<<M113>>>" ++ check (runes_of_ascii "
+root packet trueish { } options
+{ Foo= 0123456789;
+    } root packet
+    A// @lengthOf(
+{ repeat
+i8i8 body// @lengthOf(
+`it's` ,} // 50% %s")).
+Eval vm_compute in ("<<<M1845>>>" ++ check (runes_of_ascii "options
+
+{
+	} // c
+		options  {
+MetaDataX =
+    char;	} MetaData Pad{ i8
+metadata,
+
+string stringy
+    ,
+int8
+    As`{ , }`
+, }
+")).
+Eval vm_compute in ("<<<M935>>>" ++ check (runes_of_ascii "packet A {
+    u16 len @lengthOf(body) `a
+    b
+  c`,
+    u32 crc @calculatedFrom(""CRC32"") `a
+    b
+  c`,
+    string body,
+}")).
+Eval vm_compute in ("<<<M992>>>" ++ check (runes_of_ascii "packet A {
+    match k as n {
+        ""%d%s"" : B,
+        [""%d%s"", 1] : C,
+        [1,2,3,4,5,""%d%s""] : D,
+    },
+}")).
+Eval vm_compute in ("<<<M1223>>>" ++ check (runes_of_ascii "options { } options { MetaDataX = char ; } MetaData // c
+Pad { i8 metadata , string stringy , int8 As `{ , }` , }")).
+Eval vm_compute in ("<<<M977>>>" ++ check (runes_of_ascii "packet A {
+    u16 len @lengthOf(body) `%%d%!`,
+    u32 crc @calculatedFrom(""CRC32"") `%%d%!`,
+    string body,
+}")).
+Eval vm_compute in ("<<<M445>>>" ++ check (runes_of_ascii "packet
+    asx { @calculatedFrom(
+""""  ) @tag( 255 )repeat
+// packet A { u8 x, }
+// trailing space 
+int16")).
+Eval vm_compute in ("<<<M894>>>" ++ check (runes_of_ascii "packet A {
   match k as n {
-    [""a"", 22, ""c c""] : B
+    [1, ""bb"", 007, ""d"", 5, ""f"", 7, ""h"", 9, ""j"", 11] : B
     2 : C
   },
 }")).
-Eval vm_compute in ("<<<M167>>>" ++ check (runes_of_ascii "packet msg_type { repeat// " ++ [27880; 37322]%N ++ runes_of_ascii "
-zchar[  007] Logon `two words`, }
-")).
-Eval vm_compute in ("<<<M314>>>" ++ check (runes_of_ascii "root packet string_{
-char[] matchKey ,
-} packet x {
-    } 	 ")).
-Eval vm_compute in ("<<<M1745>>>" ++ check (runes_of_ascii "packet calculatedFrom {
-    repeat string Foo `{ , }`,
+Eval vm_compute in ("<<<M853>>>" ++ check (runes_of_ascii "packet A {
+  match k as n {
+    [""a"", ""bb"", ""c c"", ""d"", ""e"", ""f"", ""g"", ""h""] : B
+    2 : C
+  },
 }")).
-Eval vm_compute in ("<<<M1204>>>" ++ check (runes_of_ascii "packet body {
-// c
-i32 f32a `{ , }` , } options { }")).
-Eval vm_compute in ("<<<M1243>>>" ++ check (runes_of_ascii "root packet P {
-    repeat char cs,
+Eval vm_compute in ("<<<M867>>>" ++ check (runes_of_ascii "packet A {
+  match k as n {
+    [1, ""bb"", 007, ""d"", 5, ""f"", 7, ""h"", 9] : B,
+    2 : C
+  },
+}")).
+Eval vm_compute in ("<<<M826>>>" ++ check (runes_of_ascii "packet A {
+  match k as n {
+    [""a"", ""bb"", ""c c"", ""d"", ""e"", ""f""] : B,
+    2 : C
+  },
+}")).
+Eval vm_compute in ("<<<M1806>>>" ++ check (runes_of_ascii "options {
+    Packet = ""a\\""
+    Logon = true
+    f32a = true;
+    falsey = false;
+}")).
+Eval vm_compute in ("<<<M1446>>>" ++ check (runes_of_ascii "
+packet A
+
+    {
+
+match
+k	as
+
+n
+	{ [ 1
+,22  ,
+007  ] :	B  ,	2  :	C
+} ,
+    } ")).
+Eval vm_compute in ("<<<M808>>>" ++ check (runes_of_ascii "packet A {
+  match k as n {
+    [""a"", ""bb"", 007, ""d""] : B,
+    2 : C
+  },
+}")).
+Eval vm_compute in ("<<<M290>>>" ++ check (runes_of_ascii "MetaData u8x
+{ uint8
+    T`" ++ [233]%N ++ runes_of_ascii "`
+    ,	i32 MetaDataX,float32
+    crc ,
+}
+
+")).
+Eval vm_compute in ("<<<M1622>>>" ++ check (runes_of_ascii "
+
+  MetaData i64_
+    {
+	zchar[	// " ++ [27880; 37322]%N ++ runes_of_ascii "
+    0123456789
+]i8i8	`" ++ [233]%N ++ runes_of_ascii "` ,  }
+")).
+Eval vm_compute in ("<<<M36>>>" ++ check (runes_of_ascii "packet  chars { char[ 007 ]float @calculatedFrom( ""x y"" ),	}
+
+")).
+Eval vm_compute in ("<<<M1108>>>" ++ check (runes_of_ascii "packet A { // a
+ @tag(1) u8 x, // b
+ // c
+ @tag(2) u8 y, }")).
+Eval vm_compute in ("<<<M89>>>" ++ check (runes_of_ascii "packet _x {@tag(
+10	) float32
+roots `u8 x,`
+    , }
+")).
+Eval vm_compute in ("<<<M968>>>" ++ check (runes_of_ascii "root packet A {
+    u8 x `100% of %s %d %v`,
+}")).
+Eval vm_compute in ("<<<M1251>>>" ++ check (runes_of_ascii "root packet P {
+    char c,
     u8 x,
 }
 ")).
-Eval vm_compute in ("<<<M596>>>" ++ check (runes_of_ascii "
-packet
-    asx {match u128 as lengthOf
-{")).
-Eval vm_compute in ("<<<M1637>>>" ++ check (runes_of_ascii "packet A {
-    u8 x `a
-        b`,
-}")).
-Eval vm_compute in ("<<<M1533>>>" ++ check (runes_of_ascii "
+Eval vm_compute in ("<<<M1961>>>" ++ check (runes_of_ascii "
 
-  packet
-A{ u8
+  // c
 
-x  `a
-b` 
-, }
+MetaData
 
+tag
+
+    { 
+}
 ")).
-Eval vm_compute in ("<<<M1833>>>" ++ check (runes_of_ascii "
-
-  // c 	
-    packet 
-A {
-	}
-")).
-Eval vm_compute in ("<<<M1884>>>" ++ check (runes_of_ascii "
-packet A
-
-{ 
-} 
-    // c" ++ [65279]%N ++ runes_of_ascii "
+Eval vm_compute in ("<<<M1640>>>" ++ check (runes_of_ascii "MetaData
+tag
+    {
+    } 	 // c
  
 ")).
-Eval vm_compute in ("<<<M1399>>>" ++ check (runes_of_ascii "// c
-    MetaData	u{ }
+Eval vm_compute in ("<<<M1560>>>" ++ check (runes_of_ascii "
+options{
+a
+	=  1// a
+		;
+
+}
 ")).
-Eval vm_compute in ("<<<M1064>>>" ++ check (runes_of_ascii "packet A {
-}// a// b")).
-Eval vm_compute in ("<<<M1135>>>" ++ check (runes_of_ascii "MetaData u {
+Eval vm_compute in ("<<<M1072>>>" ++ check (runes_of_ascii "packet A {
+ u8 x `d" ++ [65279]%N ++ runes_of_ascii "`, // c" ++ [65279]%N ++ runes_of_ascii "
+}")).
+Eval vm_compute in ("<<<M969>>>" ++ check (runes_of_ascii "packet A {
+    u8 x `%`,
+}")).
+Eval vm_compute in ("<<<M1150>>>" ++ check (runes_of_ascii "root packet a1 {
 // c
 }")).
-Eval vm_compute in ("<<<M1032>>>" ++ check (runes_of_ascii "// c" ++ [11]%N ++ runes_of_ascii "
+Eval vm_compute in ("<<<M1061>>>" ++ check (runes_of_ascii "// c 	
 packet A {
 }")).
-Eval vm_compute in ("<<<M1024>>>" ++ check (runes_of_ascii "packet A {
-}// c" ++ [8287]%N)).
-Eval vm_compute in ("<<<M626>>>" ++ check (runes_of_ascii "
-packet
-    as")).
-Eval vm_compute in ("<<<M758>>>" ++ check (runes_of_ascii "LE]u'")).
-Eval vm_compute in ("<<<M730>>>" ++ check (runes_of_ascii "//")).
+Eval vm_compute in ("<<<M1065>>>" ++ check (runes_of_ascii "packet A {
+}
+// c" ++ [8203]%N)).
+Eval vm_compute in ("<<<M1101>>>" ++ check (runes_of_ascii "options { // a
+ }")).
+Eval vm_compute in ("<<<M751>>>" ++ check (runes_of_ascii "v" ++ [65533; 65533]%N ++ runes_of_ascii "]" ++ [65533]%N ++ runes_of_ascii "P" ++ [4; 65533]%N ++ runes_of_ascii "&" ++ [65533; 65533]%N ++ runes_of_ascii "R")).
+Eval vm_compute in ("<<<M1049>>>" ++ check (runes_of_ascii "// c" ++ [11]%N)).
